@@ -204,6 +204,8 @@ def reviewed : List (String × List Entry) :=
       .drainedBy "the handler's `for … := range ch` copy loop: handler_loops_read_to_close"⟩]),
   ("service/queryRangeService.go:QueryRangeService.Tail#2",
    []),
+  ("service/queryRangeService.go:QueryRangeService.Tail#3",
+   []),
   ("service/tempoService.go:TempoService.Tags#1",
    [⟨"close", "TempoService.Tags#1", "close(res)",
       .ownChannel⟩,
